@@ -57,11 +57,11 @@ type server struct {
 	shutdown int32
 	returned int32
 	afterRet int32
-	trigger  int32 // the scenario's shutdown-by-action has fired
-	slowed   int32 // slowclose: one OnClose of the shutdown has been delayed
-	closeBeg int32 // OnClose callbacks entered
-	closeEnd int32 // OnClose callbacks completed
-	stopping int32 // the driver has called Stop
+	trigger  int32  // the scenario's shutdown-by-action has fired
+	slowed   int32  // slowclose: one OnClose of the shutdown has been delayed
+	closeBeg int32  // OnClose callbacks entered
+	closeEnd int32  // OnClose callbacks completed
+	stopping int32  // the driver has called Stop
 	lnNet    string // network and address of one listener, as DupListener wants them
 	lnAddr   string
 	inCB     map[int64]int32
@@ -394,7 +394,9 @@ func runScenario(sc scenario) string {
 		_ = l.Close()
 		addr = fmt.Sprintf("tcp://127.0.0.1:%d", port)
 		s.lnNet, s.lnAddr = "tcp", fmt.Sprintf("127.0.0.1:%d", port)
-		dial = func() (net.Conn, error) { return net.DialTimeout("tcp", fmt.Sprintf("127.0.0.1:%d", port), time.Second) }
+		dial = func() (net.Conn, error) {
+			return net.DialTimeout("tcp", fmt.Sprintf("127.0.0.1:%d", port), time.Second)
+		}
 	}
 	opts := []gnet.Option{gnet.WithLogger(quiet{}), gnet.WithNumEventLoop(sc.loops), gnet.WithReusePort(sc.reuseport), gnet.WithTicker(sc.ticker),
 		gnet.WithEdgeTriggeredIO(sc.et), gnet.WithLoadBalancing(gnet.LoadBalancing(sc.lb))}
